@@ -125,6 +125,184 @@ theorem transformKey_str_eq_enum : ∀ p ∈ Gen.frameID, ∀ r ∈ Gen.frameID,
   intro p hp r hr
   simp [transformKey, frameOfArg, roundtrip_frame p hp, roundtrip_frame r hr, roundtrip_frame_upper p hp]
 
+/-! ## parse sites taking several strings: `set_task_lists`, `set_task_dict`, the `frame_id` of a config -/
+
+theorem task_names_functional : ∀ p ∈ Gen.evaluationTask, ∀ r ∈ Gen.evaluationTask, p.1 = r.1 → p.2 = r.2 := by
+  decide
+
+/-- a member value names exactly its member (the inner loop has no `break`, the values are distinct) -/
+theorem membersNamed_member : ∀ p ∈ Gen.evaluationTask, membersNamed Gen.evaluationTask p.2 = [p.1] := by decide
+
+theorem membersNamed_nonmember (s : String) (h : s ∉ values Gen.evaluationTask) :
+    membersNamed Gen.evaluationTask s = [] := by
+  unfold membersNamed
+  have : Gen.evaluationTask.filter (fun p => p.2 == s) = [] := by
+    rw [List.filter_eq_nil_iff]
+    intro p hp hps
+    exact h (List.mem_map.2 ⟨p, hp, by simpa using hps⟩)
+  rw [this]; rfl
+
+/-- one string of the list is read exactly as `set_task` reads it -/
+theorem membersNamed_eq_setTask (s : String) : membersNamed Gen.evaluationTask s = (setTask s).toList := by
+  by_cases h : s ∈ values Gen.evaluationTask
+  · obtain ⟨p, hp, rfl⟩ := List.mem_map.1 h
+    rw [membersNamed_member p hp, roundtrip_setTask p hp]; rfl
+  · rw [membersNamed_nonmember s h, nonmember_setTask s h]; rfl
+
+/-- `set_task_lists` = `set_task` on every string, the answers that are members kept in order -/
+theorem setTaskLists_eq_filterMap (l : List String) : setTaskLists l = l.filterMap setTask := by
+  induction l with
+  | nil => rfl
+  | cons s l ih =>
+    have hc : setTaskLists (s :: l) = membersNamed Gen.evaluationTask s ++ setTaskLists l := by
+      simp [setTaskLists]
+    rw [hc, ih, membersNamed_eq_setTask, List.filterMap_cons]
+    cases setTask s <;> rfl
+
+/-- every member value maps to its member, order and repetitions preserved -/
+theorem roundtrip_setTaskLists (ps : List (String × String)) (h : ∀ p ∈ ps, p ∈ Gen.evaluationTask) :
+    setTaskLists (ps.map (·.2)) = ps.map (·.1) := by
+  induction ps with
+  | nil => rfl
+  | cons p ps ih =>
+    have hc : setTaskLists ((p :: ps).map (·.2)) = membersNamed Gen.evaluationTask p.2 ++ setTaskLists (ps.map (·.2)) := by
+      simp [setTaskLists]
+    rw [hc, membersNamed_member p (h p (List.mem_cons_self ..)), ih (fun q hq => h q (List.mem_cons_of_mem _ hq))]
+    rfl
+
+/-- the whole enum, spelled by its values, comes back as the whole enum -/
+theorem setTaskLists_all_members : setTaskLists (values Gen.evaluationTask) = names Gen.evaluationTask := by decide
+
+/-- nothing but members comes back -/
+theorem setTaskLists_members (l : List String) : ∀ m ∈ setTaskLists l, m ∈ names Gen.evaluationTask := by
+  intro m hm
+  rw [setTaskLists_eq_filterMap, List.mem_filterMap] at hm
+  obtain ⟨s, _, hs⟩ := hm
+  exact List.mem_map.2 ⟨(m, s), firstByValue_some_mem hs, rfl⟩
+
+/-- a member comes back only for its own value -/
+theorem setTaskLists_sound (l : List String) : ∀ m ∈ setTaskLists l, ∃ s ∈ l, (m, s) ∈ Gen.evaluationTask := by
+  intro m hm
+  rw [setTaskLists_eq_filterMap, List.mem_filterMap] at hm
+  obtain ⟨s, hsl, hs⟩ := hm
+  exact ⟨s, hsl, firstByValue_some_mem hs⟩
+
+theorem setTaskLists_append (a b : List String) : setTaskLists (a ++ b) = setTaskLists a ++ setTaskLists b := by
+  simp [setTaskLists]
+
+/-- what the code does with a string that names no member: it contributes nothing (no exception, no placeholder) -/
+theorem setTaskLists_nonmember_dropped (a b : List String) (s : String) (h : s ∉ values Gen.evaluationTask) :
+    setTaskLists (a ++ s :: b) = setTaskLists (a ++ b) := by
+  have hs : setTaskLists (s :: b) = setTaskLists b := by
+    have hc : setTaskLists (s :: b) = membersNamed Gen.evaluationTask s ++ setTaskLists b := by simp [setTaskLists]
+    rw [hc, membersNamed_nonmember s h]; rfl
+  rw [setTaskLists_append, hs, ← setTaskLists_append]
+
+/-- the keys `set_task_dict` produces are those `set_task_lists` produces for the given keys -/
+theorem setTaskDict_keys {α : Type} (kv : List (String × α)) :
+    (setTaskDict kv).map (·.1) = setTaskLists (kv.map (·.1)) := by
+  induction kv with
+  | nil => rfl
+  | cons e kv ih =>
+    have h1 : setTaskDict (e :: kv) = (membersNamed Gen.evaluationTask e.1).map (fun m => (m, e.2)) ++ setTaskDict kv := by
+      simp [setTaskDict]
+    have h2 : setTaskLists ((e :: kv).map (·.1)) = membersNamed Gen.evaluationTask e.1 ++ setTaskLists (kv.map (·.1)) := by
+      simp [setTaskLists]
+    rw [h1, h2, List.map_append, ih]
+    simp [Function.comp_def]
+
+/-- every member value used as a key becomes its member and keeps its item, in insertion order -/
+theorem roundtrip_setTaskDict {α : Type} (ps : List ((String × String) × α)) (h : ∀ e ∈ ps, e.1 ∈ Gen.evaluationTask) :
+    setTaskDict (ps.map fun e => (e.1.2, e.2)) = ps.map fun e => (e.1.1, e.2) := by
+  induction ps with
+  | nil => rfl
+  | cons e ps ih =>
+    have h1 : setTaskDict ((e :: ps).map fun e => (e.1.2, e.2)) =
+        (membersNamed Gen.evaluationTask e.1.2).map (fun m => (m, e.2)) ++ setTaskDict (ps.map fun e => (e.1.2, e.2)) := by
+      simp [setTaskDict]
+    rw [h1, membersNamed_member e.1 (h e (List.mem_cons_self ..)), ih (fun q hq => h q (List.mem_cons_of_mem _ hq))]
+    rfl
+
+theorem nodup_filterMap_of_inj {α β : Type} {f : α → Option β}
+    (H : ∀ a a' b, f a = some b → f a' = some b → a = a') {l : List α} (h : l.Nodup) : (l.filterMap f).Nodup := by
+  induction l with
+  | nil => simp
+  | cons a l ih =>
+    rw [List.nodup_cons] at h
+    rw [List.filterMap_cons]
+    cases hfa : f a with
+    | none => exact ih h.2
+    | some b =>
+      refine List.nodup_cons.2 ⟨?_, ih h.2⟩
+      intro hb
+      obtain ⟨a', ha', hfa'⟩ := List.mem_filterMap.1 hb
+      exact h.1 (H a a' b hfa hfa' ▸ ha')
+
+/-- distinct keys (a Python dict) never produce the same member twice: `task_dict[task] = item` always appends -/
+theorem setTaskDict_keys_nodup {α : Type} (kv : List (String × α)) (h : (kv.map (·.1)).Nodup) :
+    ((setTaskDict kv).map (·.1)).Nodup := by
+  rw [setTaskDict_keys, setTaskLists_eq_filterMap]
+  refine nodup_filterMap_of_inj ?_ h
+  intro s s' m hs hs'
+  have h1 := firstByValue_some_mem (t := Gen.evaluationTask) hs
+  have h2 := firstByValue_some_mem (t := Gen.evaluationTask) hs'
+  exact task_names_functional _ h1 _ h2 rfl
+
+theorem frameFromValue_cases (s : String) : (∃ m, frameFromValue s = .ok m) ∨ frameFromValue s = .error "ValueError" := by
+  unfold frameFromValue
+  cases firstByValue Gen.frameID s.toLower with
+  | some m => exact Or.inl ⟨m, rfl⟩
+  | none => exact Or.inr rfl
+
+/-- `frame_id` given as one string: the value or its upper-case spelling gives the one-element list of the member -/
+theorem roundtrip_frameIds_one : ∀ p ∈ Gen.frameID,
+    frameIds (.one p.2) = .ok [p.1] ∧ frameIds (.one p.2.toUpper) = .ok [p.1] := by
+  intro p hp
+  simp [frameIds, roundtrip_frame p hp, roundtrip_frame_upper p hp, Except.map]
+
+/-- `frame_id` given as a sequence of member values: the members, in order -/
+theorem roundtrip_frameIds_many (ps : List (String × String)) (h : ∀ p ∈ ps, p ∈ Gen.frameID) :
+    frameIds (.many (ps.map (·.2))) = .ok (ps.map (·.1)) := by
+  unfold frameIds
+  induction ps with
+  | nil => rfl
+  | cons p ps ih =>
+    have := ih (fun q hq => h q (List.mem_cons_of_mem _ hq))
+    simp only [List.map_cons, List.mapM_cons, roundtrip_frame p (h p (List.mem_cons_self ..)), this]
+    rfl
+
+/-- one string that is no frame makes the whole `frame_id` argument rejected -/
+theorem nonmember_frameIds (l : List String) (h : ∃ s ∈ l, s.toLower ∉ values Gen.frameID) :
+    frameIds (.many l) = .error "ValueError" := by
+  unfold frameIds
+  induction l with
+  | nil => obtain ⟨s, hs, _⟩ := h; cases hs
+  | cons x l ih =>
+    rcases frameFromValue_cases x with ⟨m, hm⟩ | he
+    · have hl : ∃ s ∈ l, s.toLower ∉ values Gen.frameID := by
+        obtain ⟨s, hs, hn⟩ := h
+        rcases List.mem_cons.1 hs with rfl | hs'
+        · rw [nonmember_frame s hn] at hm; cases hm
+        · exact ⟨s, hs', hn⟩
+      simp only [List.mapM_cons, hm, ih hl]
+      rfl
+    · simp only [List.mapM_cons, he]
+      rfl
+
+theorem nonmember_frameIds_one (s : String) (h : s.toLower ∉ values Gen.frameID) :
+    frameIds (.one s) = .error "ValueError" := by
+  simp [frameIds, nonmember_frame s h, Except.map]
+
+/-- the task of a config: a supported member value gives its member, anything unsupported is rejected -/
+theorem roundtrip_checkTask (support : List String) : ∀ p ∈ Gen.evaluationTask, p.2 ∈ support →
+    checkTask support p.2 = .ok (some p.1) := by
+  intro p hp hs
+  simp [checkTask, hs, roundtrip_setTask p hp]
+
+theorem nonmember_checkTask (support : List String) (s : String) (h : s ∉ support) :
+    checkTask support s = .error "ValueError" := by
+  simp [checkTask, h]
+
 /-! ## non-vacuity: the hypotheses are met by concrete strings -/
 example : "detection " ∉ values Gen.evaluationTask := by decide
 example : ("bogus" : String).toLower ∉ values Gen.frameID := by decide +kernel
@@ -132,5 +310,10 @@ example : taskFromValue "tracking" = .ok "TRACKING" := by decide
 example : frameFromValue "MAP" = .ok "MAP" := by decide +kernel
 example : visibilityFromValue "v0-40" = .ok "NONE" := by decide
 example : visibilityFromValue "whatever" = .ok "UNAVAILABLE" := by decide
+example : setTaskLists ["tracking", "Detection", "x", "detection", "tracking"] = ["TRACKING", "DETECTION", "TRACKING"] := by decide
+example : setTaskDict [("sensing", 1), ("nope", 2), ("detection2d", 3)] = [("SENSING", 1), ("DETECTION2D", 3)] := by decide
+example : frameIds (.many ["cam_front", "CAM_BACK"]) = .ok ["CAM_FRONT", "CAM_BACK"] := by decide +kernel
+example : frameIds (.many ["cam_front", "cam_rear"]) = .error "ValueError" := by decide +kernel
+example : checkTask ["sensing"] "detection" = .error "ValueError" ∧ checkTask ["sensing"] "sensing" = .ok (some "SENSING") := by decide
 
 end PEval.C20
